@@ -106,7 +106,7 @@ class DT:
     def atom(self, key: str, domain: list):
         if key in self.val:
             return self.val[key]
-        raise NeedAtom(key, domain)
+        raise NeedAtom(key, self.atoms.get(key, domain))
 
     def concrete(self, v):
         """resolve a Sym that has a declared domain to its value under the valuation"""
@@ -450,7 +450,8 @@ class DT:
             if nm in env and isinstance(env[nm], tuple) and env[nm][0] == "closure":
                 return self.call_closure(env[nm], args, n, env)
             if nm == "deepcopy" or nm == "copy":
-                return args[0]
+                a0 = self.concrete(args[0])
+                return Sym(f"copy({a0.path})", self.cls_of(a0)) if isinstance(a0, Sym) else a0
             if nm == "len":
                 v = self.concrete(args[0])
                 if isinstance(v, Sym):
@@ -632,3 +633,41 @@ def _cmp(op, a, b):
 def _binop(op, a, b):
     return {ast.Add: lambda: a + b, ast.Sub: lambda: a - b, ast.Mult: lambda: a * b, ast.Div: lambda: a / b,
             ast.FloorDiv: lambda: a // b, ast.Mod: lambda: a % b}[type(op)]()
+
+
+def enumerate_block(dt: DT, stmts, env_factory, fi=None, limit: int = 5000):
+    """evaluate a statement list under every valuation of the atoms it consults.
+    env_factory() -> fresh environment; returns [(valuation, env_after, effects, outcome)]"""
+    out = []
+    pending = [dict()]
+    n = 0
+    while pending:
+        v = pending.pop()
+        n += 1
+        if n > limit:
+            raise Unsupported("block decision table exceeds %d evaluations" % limit)
+        dt.val = v
+        dt.stores = {}
+        dt.run_state = Run()
+        dt.depth = 0
+        env = env_factory()
+        if fi is not None:
+            env["__fi__"] = fi
+        outcome = "fall"
+        try:
+            dt.block(stmts, env)
+        except NeedAtom as e:
+            dt.discovered.setdefault(e.key, list(e.domain))
+            for x in e.domain:
+                pending.append({**v, e.key: x})
+            continue
+        except _Return as r:
+            outcome = ("return", r.v)
+        except _Continue:
+            outcome = "continue"
+        except _Break:
+            outcome = "break"
+        except _Raise as r:
+            outcome = ("raise", r.what)
+        out.append((v, env, list(dt.run_state.effects), outcome))
+    return out
